@@ -168,18 +168,34 @@ def run(rep, tier):
             if other == id2:
                 return ("FROM1", lf[0] != "==")
         return None
-    ok, why = len(evs) == 1 and not evs[0]["guards"] and len(evs[0]["args"]) == 3, "expected one unconditional AddEvent(&nodes[destination], dr, rate), found %d" % len(evs)
-    if ok:
-        dest, dr, rt = evs[0]["args"]
-        for from1 in (True, False):
-            pick = lambda cs: decide(conds_e[cs], None, {"FROM1": from1}, from_oracle, conds_e) if cs in conds_e else None
-            d_ = resolve_ite(dest[1], pick) if isinstance(dest, tuple) and len(dest) == 2 and dest[0] == "&" and hasattr(dest[1], "args") else dest
-            v_ = sp.Matrix([resolve_ite(x, pick) if hasattr(x, "args") else x for x in dr]) if isinstance(dr, sp.Matrix) else dr
-            want_d = id2 if from1 else id1
-            want_v = Rv if from1 else -Rv
-            if not (want_d in str(d_) and (id1 if from1 else id2) not in str(d_)) or not (isinstance(v_, sp.Matrix) and v_ == want_v) or str(rt) != ae.j["params"][2]["name"]:
-                ok, why = False, "for a hop starting at segment %d the event goes to %s with displacement %s" % (1 if from1 else 2, str(d_)[:80], str(list(v_))[:80] if isinstance(v_, sp.Matrix) else v_)
+    from vsa.cases import executes as _executes
+    ok, why = bool(evs), "no AddEvent call found"
+    for from1 in (True, False):
+        if not ok:
+            break
+        # by cases of 'the hop starts on segment 1': exactly one AddEvent runs (one unconditional call, or one call per branch)
+        live = []
+        for e_ in evs:
+            x_ = _executes(e_, None, {"FROM1": from1}, from_oracle, conds_e)
+            if x_ is None:
+                ok, why = False, "cannot decide whether AddEvent at line %s runs for a hop starting at segment %d" % (e_["node"].get("line"), 1 if from1 else 2)
                 break
+            if x_:
+                live.append(e_)
+        if not ok:
+            break
+        if len(live) != 1 or len(live[0]["args"]) != 3:
+            ok, why = False, "for a hop starting at segment %d AddEvent runs %d times (exactly one event per pair and direction)" % (1 if from1 else 2, len(live))
+            break
+        dest, dr, rt = live[0]["args"]
+        pick = lambda cs: decide(conds_e[cs], None, {"FROM1": from1}, from_oracle, conds_e) if cs in conds_e else None
+        d_ = resolve_ite(dest[1], pick) if isinstance(dest, tuple) and len(dest) == 2 and dest[0] == "&" and hasattr(dest[1], "args") else dest
+        v_ = sp.Matrix([resolve_ite(x, pick) if hasattr(x, "args") else x for x in dr]) if isinstance(dr, sp.Matrix) else dr
+        want_d = id2 if from1 else id1
+        want_v = Rv if from1 else -Rv
+        if not (want_d in str(d_) and (id1 if from1 else id2) not in str(d_)) or not (isinstance(v_, sp.Matrix) and v_ == want_v) or str(rt) != ae.j["params"][2]["name"]:
+            ok, why = False, "for a hop starting at segment %d the event goes to %s with displacement %s" % (1 if from1 else 2, str(d_)[:80], str(list(v_))[:80] if isinstance(v_, sp.Matrix) else v_)
+            break
     rep.check(ok, "R14.3", "reverse-event", "events from seg1 go to seg2 with +R, from seg2 to seg1 with -R", "AddEventfromQmPair: " + why, ae.loc(), sample=True)
 
     # ---------------------------------------------------------------- R14.4
